@@ -140,7 +140,22 @@ def _subseq_dp(kb, ka):
     return amap
 
 
-def transplant(B, gaps, C):
+def _emit(out, gap, ctok, atriv):
+    """emit the inserted tokens of `gap` and then the real token `ctok`; comments that precede the
+    real token stay in front of the insertion"""
+    if gap:
+        first = gap[0].clone(trivia=ctok.trivia + ("" if ctok.trivia.endswith((" ", "\n")) or not ctok.trivia else " ") + gap[0].trivia.lstrip("\n") if ("//" in ctok.trivia or "/*" in ctok.trivia) else gap[0].trivia)
+        out.append(first)
+        out.extend(gap[1:])
+        if "//" in ctok.trivia or "/*" in ctok.trivia:
+            out.append(ctok.clone(trivia=atriv if atriv is not None else " "))
+        else:
+            out.append(ctok)
+    else:
+        out.append(ctok)
+
+
+def transplant(B, gaps, C, atriv=None):
     """Produce tokens: C with the insertions of `gaps` carried over.
     Returns (tokens, changed_spans) where changed_spans describes the
     differences between B and C (for reporting)."""
@@ -154,8 +169,7 @@ def transplant(B, gaps, C):
             for k in range(b1 - b0):
                 out.extend(pending)
                 pending = []
-                out.extend(gaps[b0 + k])
-                out.append(C[c0 + k])
+                _emit(out, gaps[b0 + k], C[c0 + k], atriv[b0 + k] if atriv else None)
         elif tag == "delete":
             for k in range(b0, b1):
                 pending.extend(gaps[k])
@@ -171,8 +185,7 @@ def transplant(B, gaps, C):
                 for k in range(b1 - b0):
                     out.extend(pending)
                     pending = []
-                    out.extend(gaps[b0 + k])
-                    out.append(C[c0 + k])
+                    _emit(out, gaps[b0 + k], C[c0 + k], atriv[b0 + k] if atriv else None)
             else:
                 out.extend(pending)
                 pending = []
